@@ -114,14 +114,12 @@ Lemma pack_deltas_stream : forall f w ds,
   pack_deltas f (N.of_nat w) ds = Ok (pack_stream w ds).
 Proof.
   induction f as [|f IH]; intros w ds Hw Hds Hf; [lia|].
-  cbn [pack_deltas]. rewrite block_width.
+  cbn [pack_deltas]. rewrite block_width. change (N.to_nat 8) with 8%nat. rewrite short_spec.
   destruct (Nat.lt_ge_cases (length ds) 8) as [Hshort|Hlong].
-  - destruct (N.leb_spec 8 (N.of_nat (length ds))); [lia|].
-    destruct (N.ltb_spec 0 (N.of_nat (length ds))) as [Hpos|Hz].
-    + apply pack_tail_correct; [exact Hw|lia|exact Hds].
-    + assert (E : ds = []) by (destruct ds; [reflexivity|cbn [length] in Hz; lia]). subst. reflexivity.
-  - destruct (N.leb_spec 8 (N.of_nat (length ds))); [|lia].
-    change (N.to_nat 8) with 8%nat.
+  - destruct (Nat.ltb_spec (length ds) 8); [|lia]. cbn [negb].
+    destruct ds as [|d0 dr] eqn:Eds; [reflexivity|]. rewrite <- Eds in *.
+    apply pack_tail_correct; [exact Hw|rewrite Eds in *; cbn [length] in *; lia|exact Hds].
+  - destruct (Nat.ltb_spec (length ds) 8); [lia|]. cbn [negb].
     assert (Ha : length (firstn 8 ds) = 8%nat) by (rewrite firstn_length; lia).
     rewrite pack_block_correct; [|exact Hw|exact Ha|apply Forall_firstn; exact Hds]. cbn [obind].
     rewrite IH; [|exact Hw|apply Forall_skipn; exact Hds|].
@@ -296,6 +294,77 @@ Proof.
         -- unfold img, entry_bytes. cbn [length]. rewrite !app_length, !le_bytes_length, flat_map_le8_length. cbn [length]. lia.
 Qed.
 
+(* ---------- reading the fields sequentially is reading them by position ---------- *)
+Lemma byte_bits_length : forall b, length (byte_bits b) = 8%nat.
+Proof. intros. unfold byte_bits. now rewrite map_length, seq_length. Qed.
+
+Lemma nth_bits_of : forall bs p, nth p (bits_of bs) false = stream_bit bs p.
+Proof.
+  induction bs as [|b r IH]; intros p.
+  - cbn [bits_of]. unfold stream_bit. destruct p; cbn [nth]; destruct (_ / 8)%nat; cbn [nth]; now rewrite N.bits_0.
+  - cbn [bits_of]. destruct (Nat.lt_ge_cases p 8) as [Hp|Hp].
+    + rewrite app_nth1 by (rewrite byte_bits_length; exact Hp). unfold byte_bits, stream_bit.
+      rewrite (nth_indep _ false (N.testbit b (N.of_nat (7 - 0)))) by (rewrite map_length, seq_length; exact Hp).
+      rewrite (map_nth (fun t => N.testbit b (N.of_nat (7 - t)))), seq_nth by exact Hp. cbn [Nat.add].
+      rewrite Nat.div_small, Nat.mod_small by exact Hp. reflexivity.
+    + rewrite app_nth2 by (rewrite byte_bits_length; exact Hp). rewrite byte_bits_length, IH. unfold stream_bit.
+      assert (Hd : (p / 8 = S ((p - 8) / 8))%nat).
+      { replace p with ((p - 8) + 1 * 8)%nat at 1 by lia. rewrite Nat.div_add by lia. lia. }
+      assert (Hm : (p mod 8 = (p - 8) mod 8)%nat).
+      { replace p with ((p - 8) + 1 * 8)%nat at 1 by lia. rewrite Nat.mod_add by lia. reflexivity. }
+      rewrite Hd, Hm. reflexivity.
+Qed.
+
+Lemma bits_of_length : forall bs, length (bits_of bs) = (8 * length bs)%nat.
+Proof. induction bs as [|b r IH]; [reflexivity|]. cbn [bits_of length]. rewrite app_length, byte_bits_length, IH. lia. Qed.
+
+Lemma msb_val_spec : forall l acc,
+  msb_val acc l = acc * 2 ^ N.of_nat (length l) + N_of_bits (fun b => nth (length l - 1 - b) l false) (length l).
+Proof.
+  induction l as [|x r IH]; intros acc; cbn [msb_val length].
+  - cbn [N_of_bits]. change (2 ^ N.of_nat 0) with 1. lia.
+  - rewrite IH. cbn [N_of_bits]. rewrite Nat2N.inj_succ, N.pow_succ_r'.
+    replace (S (length r) - 1 - length r)%nat with 0%nat by lia. cbn [nth].
+    rewrite (N_of_bits_ext (fun b => nth (S (length r) - 1 - b) (x :: r) false) (fun b => nth (length r - 1 - b) r false)).
+    + destruct x; lia.
+    + intros t Ht. replace (S (length r) - 1 - t)%nat with (S (length r - 1 - t)) by lia. reflexivity.
+Qed.
+
+Lemma nth_firstn_skipn : forall (l : list bool) off w k, (k < w)%nat -> (off + w <= length l)%nat ->
+  nth k (firstn w (skipn off l)) false = nth (off + k) l false.
+Proof.
+  intros l off w k Hk Hl. rewrite nth_firstn_lt by exact Hk. apply nth_skipn_add.
+Qed.
+
+Lemma skipn_skipn_local : forall (A : Type) (a b : nat) (l : list A), skipn a (skipn b l) = skipn (b + a) l.
+Proof.
+  intros A a b. revert a. induction b as [|b IH]; intros a l; [reflexivity|].
+  destruct l as [|x l]; [now rewrite !skipn_nil|]. cbn [skipn Nat.add]. apply IH.
+Qed.
+
+Lemma fields_seq_spec : forall cnt w all off, (off + cnt * w <= length all)%nat ->
+  fields_seq cnt w (skipn off all) =
+  map (fun i => N_of_bits (fun b => nth (off + i * w + (w - 1 - b)) all false) w) (seq 0 cnt).
+Proof.
+  induction cnt as [|c IH]; intros w all off Hl; [reflexivity|].
+  cbn [fields_seq seq map]. f_equal.
+  - rewrite msb_val_spec.
+    assert (Hlen : length (firstn w (skipn off all)) = w) by (rewrite firstn_length, skipn_length; lia).
+    rewrite Hlen. apply N_of_bits_ext. intros b Hb.
+    rewrite nth_firstn_skipn by lia. f_equal. lia.
+  - rewrite skipn_skipn_local.
+    rewrite IH by lia. rewrite <- seq_shift, map_map. apply map_ext. intros i.
+    apply N_of_bits_ext. intros b Hb. f_equal. lia.
+Qed.
+
+Theorem fields_seq_field : forall cnt w bs, (cnt * w <= 8 * length bs)%nat ->
+  fields_seq cnt w (bits_of bs) = map (field w bs) (seq 0 cnt).
+Proof.
+  intros cnt w bs H. change (bits_of bs) with (skipn 0 (bits_of bs)).
+  rewrite fields_seq_spec by (rewrite bits_of_length; lia).
+  apply map_ext. intros i. unfold field. apply N_of_bits_ext. intros b Hb. cbn [Nat.add]. apply nth_bits_of.
+Qed.
+
 Lemma expressible_v4_suitable : forall a, expressible V4 a = true -> c_is_suitable_for_compression (conc a) = true.
 Proof.
   intros a. unfold expressible, c_is_suitable_for_compression, c_num_retained, c_is_estimation_mode, conc, cnt_of, est.
@@ -338,8 +407,12 @@ Proof.
       with ([pre; 4; S_FAMILY_THETA; N.of_nat w; N.of_nat neb; flags] ++ le_bytes 2 (a_seed_hash a) ++ l).
     apply u_app; [reflexivity|exact Hsd]. }
   rewrite Hseed.
-  assert (Hfields : prefix_sums 0 (map (field w (pack_stream w ds)) (seq 0 (length (a_entries a)))) = a_entries a).
-  { rewrite <- Hdl. rewrite pack_unpack_generic by lia. rewrite mod_small_all.
+  assert (Hfields : prefix_sums 0 (fields_seq (length (a_entries a)) w (bits_of (pack_stream w ds))) = a_entries a).
+  { rewrite fields_seq_field.
+    2:{ rewrite pack_stream_length, Hdl.
+        pose proof (Nat.div_mod (length (a_entries a) * w + 7) 8 ltac:(lia)) as Hq.
+        pose proof (Nat.mod_upper_bound (length (a_entries a) * w + 7) 8 ltac:(lia)). lia. }
+    rewrite <- Hdl. rewrite pack_unpack_generic by lia. rewrite mod_small_all.
     - apply prefix_sums_deltas. exact Hch.
     - unfold w. rewrite N2Nat.id. exact Hds. }
   unfold pre, est. destruct (N.ltb_spec (a_theta a) S_MAX_THETA) as [Hest|Hexact].
